@@ -11,8 +11,16 @@
     that loop's own closing `আবার;`, pops exactly that loop and discards exactly the `k` scopes — the
     statement fix F12 made true; no scope outside the loop is touched.
   The interplay with calls (a `ফেরত` from inside a loop of the callee, fix F13) is C05.
+  Whole loops (refinement, `Lemmas/Refine.lean`): `loop_anywhere` — the flat run in front of a `লুপ`, in any
+  structured program / context / state, decomposes along the loop's structured meaning `sIter`: the body
+  block is run again after a normal end or an `আবার`, a `থামাও` ends this loop only (`loop_absorbs`: the
+  meaning of a loop statement is never a break / continue signal, so an enclosing loop goes on), the run
+  resumes at the statement after the loop's closing `আবার;` with the loop stack and the scope depth it had
+  before the `লুপ` (`Post`'s `FrameN`), and every block opened in the body is dropped on the way
+  (`block_drops_scope`).
 -/
 import Pakhi.Lemmas.Control
+import Pakhi.Lemmas.FrameInv
 
 namespace Pakhi
 namespace C03
@@ -70,6 +78,46 @@ example : (Closing.cons (.cons (.loop ⟨2, []⟩ (.mk ⟨2, []⟩ .nil ⟨2, []
       (.cons (.ifChain (.bool true ⟨3, []⟩) ⟨3, []⟩ (.mk ⟨3, []⟩ (.cons (.cont ⟨3, []⟩) .nil) ⟨3, []⟩) .none) .nil))
     ⟨4, []⟩ .none .nil).WF := by
   simp [Closing.WF, SList.WF, SStmt.WF, SBlock.WF, STail.WF, Closing.depth]
+
+
+/-! ### whole loops (refinement) -/
+
+/-- the meaning of a loop statement is never `থামাও` / `আবার`: those act on the innermost loop only -/
+theorem loop_absorbs (prog : List Stmt) (G : Nat) (lm : Meta) (body : SBlock) (cm : Meta) (k : List Stmt) (s : St) (sig : Sig) (s' : St)
+    (h : sStmt prog G (.loop lm body cm) k s = .ok (sig, s')) : sig = .normal ∨ ∃ c, sig = .ret c := by
+  simp only [sStmt] at h
+  exact sIter_signal _ G _ sig s' h
+
+/-- one pass: after the body ends normally or with `আবার` the next pass starts; `থামাও` ends the loop and pops
+    its record; a `ফেরত` leaves everything -/
+theorem loop_pass (body : St → Res (Sig × St)) (n : Nat) (s : St) :
+    sIter body (n+1) s = (body s).bind fun x =>
+      match x.1 with
+      | .normal | .cont => sIter body n x.2
+      | .brk => .ok (.normal, { x.2 with loops := x.2.loops.drop 1 })
+      | .ret c => .ok (.ret c, x.2) := by
+  simp only [sIter]; congr 1
+
+/-- a block means: its statements in a fresh scope, which is dropped however the block ends short of a `ফেরত`
+    (normally, by `থামাও`, by `আবার`) -/
+theorem block_drops_scope (prog : List Stmt) (G : Nat) (bs be : Meta) (ss : SList) (k : List Stmt) (s : St) :
+    sBlock prog G (.mk bs ss be) k s =
+      (sList prog G ss (.blockEnd be :: k) { s with scopes := [] :: s.scopes }).bind fun x =>
+        match x.1 with
+        | .ret c => .ok (.ret c, x.2)
+        | sig => .ok (sig, { x.2 with scopes := x.2.scopes.drop 1 }) := by
+  simp only [sBlock]; congr 1
+
+/-- **C03 for whole loops, anywhere**: the flat run from a `লুপ` decomposes along the structured meaning; on
+    normal completion (a `থামাও` of this loop) it continues at `k`, the statement after the closing `আবার;`,
+    with `FrameN`: the loop stack and scope depth from before the loop -/
+theorem loop_anywhere {prog : List Stmt} {α : Type} (h : Structured prog) (D : Driver prog α) (lm : Meta) (body : SBlock) (cm : Meta)
+    (F : Nat) (k : List Stmt) (s : St) (ctx : Option LC) (il : Bool) (r : Res α)
+    (hw : (SStmt.loop lm body cm).WF) (hc : (SStmt.loop lm body cm).Closed il) (hk : notElse k)
+    (hctx : CtxOK ctx il true k s) (hsuf : IsSuffixOf ((SStmt.loop lm body cm).flatten ++ k) prog)
+    (hs : StOK (GoodFn prog) prog s) (hrun : D.run F ((SStmt.loop lm body cm).flatten ++ k) s = r) (hr : r ≠ .fuel) :
+    Post D ctx k s F r (sStmt prog F (.loop lm body cm) k s) :=
+  stmt_refines h D _ F k s ctx il r hw hc hk hctx hsuf hs hrun hr
 
 end C03
 end Pakhi
